@@ -92,7 +92,7 @@ Definition inst_accounts (w : unit) : option (list bytes) * unit := (Some [ascii
 (* the scripted backend seen through SyncRequest (after f4f787a / 9edb119): class of the outcome per method *)
 Definition script : list (string * Z) :=
   [("t_rpcerr", -32000); ("t_rpcerr_500", -32001); ("t_http500_empty", -32603); ("t_http502_text", -32603);
-   ("t_drop", -32603); ("t_rawnull", -32603)]%Z%string.
+   ("t_drop", -32603); ("t_rawnull", -32603); ("t_slow_err", -32000)]%Z%string.
 Definition inst_sync (w : unit) (q : request) : (option response * bool) * unit :=
   match find (fun e => bytes_eqb (ascii_bytes (fst e)) (q_method q)) script with
   | Some (_, code) => ((Some (mkResp v2_0 (q_id q) None (Some (mkErr code some_text))), true), tt)
@@ -159,7 +159,10 @@ Definition must_fail_ok (table : list (jv * tinfo)) (body : bytes) (v : verdict)
   | None, _ => true
   end.
 
-(* ---- model vs implementation (codes 1..9) ---- *)
+(* ---- model vs implementation (codes 1..9) ----
+   Compared: single object vs array and its length, per slot null / result / error, the echoed id and the
+   jsonrpc member.  Deliberately not compared (the property says nothing about them, so a change there is
+   not an alarm): the HTTP status, the numeric error code, message texts, the result value. *)
 Definition id_matches (m : option jv) (o : option djv) : bool :=
   match m, o with
   | None, Some d => jv_eqb (expand1 d) JNull
@@ -172,7 +175,6 @@ Definition item_code (m : option response) (it : oitem) : N :=
   | None, INull => 0
   | Some r, IObj j2 id hr he _ code =>
       if negb (Bool.eqb hr (is_some (r_result r)) && Bool.eqb he (is_some (r_error r))) then 3
-      else if negb (match r_error r with Some e => (e_code e =? code)%Z | None => true end) then 4
       else if negb (id_matches (r_id r) id) then 5
       else if negb (Bool.eqb j2 (bytes_eqb (r_jsonrpc r) v2_0)) then 6
       else 0
@@ -204,12 +206,8 @@ Definition check_case (c : case) : N :=
             | Err _ => 8
             | Ok (rep, _) =>
                 match body_of rep, o with
-                | PSingle m, OSingle st it =>
-                    let c := item_code m it in
-                    if negb (c =? 0)%N then c else if (st =? status rep)%N then 0 else 2
-                | PBatch ms, OArray st its =>
-                    let c := items_code ms its in
-                    if negb (c =? 0)%N then c else if (st =? status rep)%N then 0 else 2
+                | PSingle m, OSingle _ it => item_code m it
+                | PBatch ms, OArray _ its => items_code ms its
                 | _, _ => 1
                 end
             end
